@@ -24,6 +24,7 @@
    "copies are independent: mutable accessor + mutation,    copies_independent (model), spec_frame (value model)
      or reassigning, never changes any other Variant"
    "compares equal to every copy of itself"                 variant_equal_to_copy (whole variables, == of the model),
+                                                            equal_values_compare_equal_at_any_depth (any two reachable handles),
                                                             assigned_copy_equals_source (any two nodes),
                                                             equality_is_spec_equality, equality_reflexive
    "conversions follow the documented coercions"            null_coercions, integral_conversion_preserves_value,
@@ -33,6 +34,11 @@
                                                             the code's switches compute them: accessors_report_value,
                                                             accessor_switches_compute_coercions, equality_converts_right_operand,
                                                             string_equality_decided_by_scalar_side
+   where the text is silent (round 5): out-of-range        text_decides_equality_with_a_copy,
+     decimal strings, maps with the same keys in another    conversion_open_only_for_out_of_range_strings,
+     insertion order - open in the property oracle          in_range_decimal_strings_are_decided,
+     (str_fits / veq_pinned), code's choice kept in          text_decides_plain_comparisons, permuted_maps_left_open
+     to_* / veq and the model
    What the coercion clause rests on (round 4): the model's observers m_type / m_is_null / m_to_* / meq are a separate
    TRANSCRIPTION of the code (VariantModel.v: tag constants in enum order, one reader per member of the union, the C
    conversion of every `return` written through Common.Words - w32/sx32/w64/sx64 -, bool -> 0/1, (T)double as truncation
@@ -44,8 +50,8 @@
    observers (not the Spec's), so the correspondence run ties exactly this transcription to the code.
    The quantifier "all alternative types, nested containers": values are arbitrary trees (VariantSpec.value),
    histories are arbitrary lists of VariantSpec.op with arbitrary paths; doubles are the exact dyadic
-   subset (NaN is excluded by the property; infinities and -0 are outside the Coq model and covered by a separate
-   correspondence stream with a hand-written oracle).  Not proved (validated by the correspondence run only): that the
+   subset (NaN is excluded by the property; infinities and -0 are outside the Coq model and covered by two
+   correspondence streams: a hand-written oracle at root level, stand-in runs of the extracted Spec/Model inside containers).  Not proved (validated by the correspondence run only): that the
    Spec's strtol/strtoul/strtod/%d/%u/%lld/%llu/%f/int64->double reference functions are glibc's; string->bool table. *)
 From Coq Require Import ZArith List Bool.
 From Common Require Import Words ListAux.
@@ -169,6 +175,13 @@ Theorem variant_equal_to_copy : forall s vs i j o,
        abs_top (hp s') (geth (vars s') i) = abs_top (hp s) (geth (vars s) j)).
 Proof. exact VariantMain.variant_equal_to_copy. Qed.
 Print Assumptions variant_equal_to_copy.
+
+(* round 5: not only whole variables - any two reachable handles (roots or items at any depth) denoting the same value *)
+Theorem equal_values_compare_equal_at_any_depth : forall s a b v f,
+  reachable s -> hheld (hp s) (vars s) a -> hheld (hp s) (vars s) b -> den (hp s) v a -> den (hp s) v b ->
+  (2 * hdepth (hp s) a + 2 <= f)%nat -> meq f (hp s) a b = Some true.
+Proof. exact VariantMain.equal_values_compare_equal_at_any_depth. Qed.
+Print Assumptions equal_values_compare_equal_at_any_depth.
 
 Theorem assigned_copy_equals_source : forall s vs i p j sp,
   reachable s -> abs_vars s = map Some vs -> self_containing vs (OAssign i p j sp) = false ->
@@ -389,3 +402,12 @@ Example ex_text_open :
   (veq_pinned (VNode KList [] [ab; big]) (VNode KList [] [mp [[98]; [97]] 2 1; big]) = false) /\
   (veq_pinned (VNode KList [] [VS (SInt 1); ab]) (VNode KList [] [VS (SInt 2); mp [[98]; [97]] 2 1]) = true))%Z.
 Proof. vm_compute. repeat split. Qed.
+
+(* two different blocks holding the same nested value: [["a"]] built twice; the roots and the inner lists are different
+   handles denoting equal values, and compare equal *)
+Example ex_equal_values_different_blocks :
+  option_map (fun s => (vars s, meq_top (hp s) (HB 2) (HB 5), meq 4 (hp s) (HB 1) (HB 4), meq_top (hp s) (HB 5) (HB 0)))
+    (mrun (init 3) [OSetStr 2 [] [97]%Z; OSetNode 2 [] KList [([], 2%nat)]; OSetNode 0 [] KList [([], 2%nat)];
+                    OSetStr 2 [] [97]%Z; OSetNode 2 [] KList [([], 2%nat)]; OSetNode 1 [] KList [([], 2%nat)]])
+  = Some ([HB 2; HB 5; HB 4], Some true, Some true, Some false).
+Proof. vm_compute. reflexivity. Qed.
